@@ -51,7 +51,10 @@ Lemma returned_is_stored_backspace c s ctrl aux l sel ansi :
   snd (p_backspace Q c s ctrl) = OFull aux l sel ansi -> map rstr (p_sugg (fst (p_backspace Q c s ctrl))) = l.
 Proof.
   unfold p_backspace. destruct (p_buf s); [cbn; discriminate|]. destruct ctrl; [cbn; discriminate|].
-  destruct (removelast (n :: s0)); [cbn; discriminate | apply returned_is_stored_create].
+  destruct (removelast (n :: s0)) as [|y r]; [cbn; discriminate|]. cbn zeta.
+  pose proof (returned_is_stored_create c (set_buf s (y :: r)) aux l sel ansi) as H.
+  destruct (out_empty (snd (create_suggestion Q c (set_buf s (y :: r))))); cbn [fst snd]; [|exact H].
+  intros X. rewrite <- (H X). destruct (fst (create_suggestion Q c (set_buf s (y :: r)))); reflexivity.
 Qed.
 
 (** the composition only ever holds ASCII characters (what makes byte slicing of it safe) *)
@@ -92,8 +95,9 @@ Proof.
     + intros X. inversion X; subst. rewrite Eb. constructor.
     + destruct ctrl; [intros X; inversion X; subst; constructor|].
       destruct (removelast (n :: s0)) eqn:Er; [intros X; inversion X; subst; constructor|].
-      pose proof (create_buf c (set_buf s (n0 :: l))) as Hb. destruct (create_suggestion Q c (set_buf s (n0 :: l))) as [s1 o1]. cbn [fst] in Hb.
-      intros X. inversion X; subst. rewrite Hb. cbn [set_buf p_buf]. rewrite <- Er. apply removelast_Forall. exact Ha.
+      pose proof (create_buf c (set_buf s (n0 :: l))) as Hb. destruct (create_suggestion Q c (set_buf s (n0 :: l))) as [s1 o1]. cbn [fst snd] in *.
+      destruct (out_empty o1); intros X; inversion X; subst; [destruct s1; constructor|].
+      rewrite Hb. cbn [set_buf p_buf]. rewrite <- Er. apply removelast_Forall. exact Ha.
   - unfold p_commit. destruct (negb _ && _ && _).
     + destruct (bare_suggestion s i); intros X; inversion X; subst. constructor.
     + intros X. inversion X; subst. constructor.
@@ -112,23 +116,29 @@ Definition compose_step (buf : str) (e : pevent) : str :=
   | PUpdate _ _ => buf
   end.
 
-Lemma buffer_is_composition c s e c' s' o : p_step Q c s e = Some (c', s', o) -> p_buf s' = compose_step (p_buf s) e.
+(** ... with one exception: a backspace whose result is an empty suggestion although characters are left (they display as
+    nothing) ends the word, so that "empty suggestion" and "no session" always go together *)
+Lemma buffer_is_composition c s e c' s' o :
+  p_step Q c s e = Some (c', s', o) ->
+  p_buf s' = compose_step (p_buf s) e \/ (e = PBackspace false /\ out_empty o = true /\ p_buf s' = []).
 Proof.
   destruct e as [k selb | ctrl | i | | cc r]; cbn [p_step compose_step].
-  - unfold p_key. destruct (keycode_to_char k) as [ch|].
+  - intros X0. left. revert X0. unfold p_key. destruct (keycode_to_char k) as [ch|].
     + pose proof (create_buf c (set_buf s (p_buf s ++ [ch]))) as Hb.
       destruct (create_suggestion Q c (set_buf s (p_buf s ++ [ch]))) as [s1 o1]. cbn [fst] in Hb. intros X. inversion X; subst. exact Hb.
     + destruct (p_buf s) eqn:Eb; [intros X; inversion X; subst; exact Eb|].
       pose proof (create_buf c s) as Hb. destruct (create_suggestion Q c s) as [s1 o1]. cbn [fst] in Hb. intros X. inversion X; subst. rewrite Hb. exact Eb.
   - unfold p_backspace. destruct (p_buf s) eqn:Eb.
-    + intros X. inversion X; subst. rewrite Eb. destruct ctrl; reflexivity.
-    + destruct ctrl; [intros X; inversion X; reflexivity|].
-      destruct (removelast (n :: s0)) eqn:Er; [intros X; inversion X; reflexivity|].
-      pose proof (create_buf c (set_buf s (n0 :: l))) as Hb. destruct (create_suggestion Q c (set_buf s (n0 :: l))) as [s1 o1]. cbn [fst] in Hb.
-      intros X. inversion X; subst. exact Hb.
-  - unfold p_commit. destruct (negb _ && _ && _); [destruct (bare_suggestion s i)|]; intros X; inversion X; reflexivity.
-  - intros X. inversion X; reflexivity.
-  - intros X. inversion X. unfold p_update. destruct r; reflexivity.
+    + intros X. inversion X; subst. left. rewrite Eb. destruct ctrl; reflexivity.
+    + destruct ctrl; [intros X; inversion X; left; reflexivity|].
+      destruct (removelast (n :: s0)) eqn:Er; [intros X; inversion X; left; reflexivity|].
+      pose proof (create_buf c (set_buf s (n0 :: l))) as Hb. destruct (create_suggestion Q c (set_buf s (n0 :: l))) as [s1 o1]. cbn [fst snd] in *.
+      destruct (out_empty o1) eqn:Eo; intros X; inversion X; subst.
+      * right. split; [reflexivity|]. split; [exact Eo | destruct s1; reflexivity].
+      * left. exact Hb.
+  - intros X0. left. revert X0. unfold p_commit. destruct (negb _ && _ && _); [destruct (bare_suggestion s i)|]; intros X; inversion X; reflexivity.
+  - intros H. left. inversion H; reflexivity.
+  - intros H. left. inversion H. unfold p_update. destruct r; reflexivity.
 Qed.
 
 End C01.
